@@ -84,16 +84,20 @@ class _CachedStorage(BaseStorage, BaseHeartbeat):
 
         return study_id
 
+    def _forget_study(self, study_id: int) -> None:
+        # The caller must hold ``self._lock``.
+        if study_id in self._studies:
+            for trial_number in self._studies[study_id].trials:
+                trial_id = self._study_id_and_number_to_trial_id.get((study_id, trial_number))
+                if trial_id in self._trial_id_to_study_id_and_number:
+                    del self._trial_id_to_study_id_and_number[trial_id]
+                if (study_id, trial_number) in self._study_id_and_number_to_trial_id:
+                    del self._study_id_and_number_to_trial_id[(study_id, trial_number)]
+            del self._studies[study_id]
+
     def delete_study(self, study_id: int) -> None:
         with self._lock:
-            if study_id in self._studies:
-                for trial_number in self._studies[study_id].trials:
-                    trial_id = self._study_id_and_number_to_trial_id.get((study_id, trial_number))
-                    if trial_id in self._trial_id_to_study_id_and_number:
-                        del self._trial_id_to_study_id_and_number[trial_id]
-                    if (study_id, trial_number) in self._study_id_and_number_to_trial_id:
-                        del self._study_id_and_number_to_trial_id[(study_id, trial_number)]
-                del self._studies[study_id]
+            self._forget_study(study_id)
 
         self._backend.delete_study(study_id)
 
@@ -236,12 +240,18 @@ class _CachedStorage(BaseStorage, BaseHeartbeat):
             if study_id not in self._studies:
                 self._studies[study_id] = _StudyInfo()
             study = self._studies[study_id]
-            trials = self._backend._get_trials(
-                study_id,
-                states=None,
-                included_trial_ids=study.unfinished_trial_ids,
-                trial_id_greater_than=study.last_finished_trial_id,
-            )
+            try:
+                trials = self._backend._get_trials(
+                    study_id,
+                    states=None,
+                    included_trial_ids=study.unfinished_trial_ids,
+                    trial_id_greater_than=study.last_finished_trial_id,
+                )
+            except KeyError:
+                # The study was deleted by another client. The backend may hand its id to a new
+                # study later, so nothing cached under this id may survive.
+                self._forget_study(study_id)
+                raise
             if not trials:
                 return
 
